@@ -66,8 +66,9 @@ Proof.
   { rewrite p124, (N.mul_comm 16), <- N.div_div by (try apply pow2_nz; discriminate).
     reflexivity. }
   rewrite H1.
-  rewrite <- (N.div_mod' (x / 2 ^ 120) 16).
-  apply split_at.
+  assert (H2 : (x / 2 ^ 120) mod 16 + 16 * (x / 2 ^ 120 / 16) = x / 2 ^ 120).
+  { rewrite N.add_comm. symmetry. apply N.div_mod'. }
+  rewrite H2. apply split_at.
 Qed.
 
 Lemma shl_trunc_small x k : x * 2 ^ k < 2 ^ 128 -> shl_trunc x k = x * 2 ^ k.
@@ -89,7 +90,7 @@ Proof.
   rewrite div_add_pow by (apply mid_lt; assumption).
   rewrite p4, (N.mod_small b 16) by assumption.
   rewrite shl_trunc_small by (rewrite p128; lia).
-  rewrite <- N.shiftl_mul_pow2.
+  rewrite <- (N.shiftl_mul_pow2 i 120).
   rewrite <- N.lor_assoc, (N.lor_comm (N.shiftl b 124)), N.lor_assoc.
   rewrite (lor_shiftl_add P i 120) by assumption.
   rewrite lor_shiftl_add by (apply mid_lt; assumption). reflexivity.
@@ -102,7 +103,7 @@ Proof.
   intros HP Hn Hb Hb'. rewrite BITS_CLEAR_eq, N.land_ones.
   rewrite mk3_alt', mod_add_pow by (apply mid_lt; assumption).
   rewrite shl_trunc_small by (rewrite p128'; lia).
-  rewrite <- N.shiftl_mul_pow2.
+  rewrite <- (N.shiftl_mul_pow2 b' 124).
   rewrite lor_shiftl_add by (apply mid_lt; assumption). reflexivity.
 Qed.
 
@@ -214,6 +215,7 @@ Proof.
   intro H. unfold wfb. rewrite bits_pk, next_index_pk by assumption.
   unfold pk. cbn [t].
   pose proof (tpack_lt b l H) as H1. pose proof (okbl_len b l H) as H2.
+  pose proof (okbl_pay_lt b l H) as H3.
   destruct H as (Hb & Hl & Hs).
   rewrite MAX_BITS_eq. unfold MAX_K.
   repeat (apply andb_true_intro; split).
@@ -222,7 +224,7 @@ Proof.
   - apply N.leb_le; lia.
   - apply N.leb_le; assumption.
   - apply N.eqb_eq. rewrite N.land_ones. unfold tpack.
-    rewrite mk3_mod by (apply okbl_pay_lt; repeat split; assumption).
+    rewrite mk3_mod by assumption.
     rewrite N.shiftr_div_pow2. apply N.div_small. apply pay_lt; assumption.
 Qed.
 
@@ -249,7 +251,7 @@ Proof.
   set (b := bits p) in *. set (n := next_index p) in *.
   assert (Hb : b = t p / 2 ^ 124).
   { unfold b. rewrite bits_spec, p4. apply N.mod_small.
-    apply N.div_lt_upper_bound; [apply pow2_nz|]. rewrite <- p128'. assumption. }
+    apply N.div_lt_upper_bound; [apply pow2_nz|]. rewrite N.mul_comm, <- p128'. assumption. }
   assert (Hn : n = (t p / 2 ^ 120) mod 16).
   { unfold n. rewrite next_index_spec, p4. reflexivity. }
   set (lo := t p mod 2 ^ 120).
